@@ -1,22 +1,29 @@
 /-
   THE INVARIANT of the ledger (C01 goal 1): `Inv c s chain` – store `s` holds exactly the books of `chain`.
 -/
-import MW.Lemmas.LedgerBlock
+import MW.Lemmas.LedgerAddrs
 namespace MW.Lemmas.Ledger
 open MW MW.Model.Ledger MW.Spec.Chain MW.Spec.Books
 
 /-- `Inv c s chain`: every mined bucket of `s` is the corresponding table of the books of `chain`
     (unspent index = the spec ledger `ledgerOf` with block ids, credit table = every owned output with spent
     flag and spender as the chain has them, one debit per owned spent input, deposit records with the
-    withdrawn flag, tx records and block records of the relevant transactions, address first-use heights),
+    withdrawn flag, tx records and block records of the relevant transactions),
     the balance of every ready wallet is the total of its ledger entries, the synced-to table is the
-    height ↦ id map of the chain and its tip pointer the last height. -/
+    height ↦ id map of the chain and its tip pointer the last height.
+    The address records (first-use heights) are NOT part of `Inv`: Rollback resets a rolled-back first use
+    to 0 instead of restoring the previous record; for forward processing they are covered by
+    `connect_sound_full` / `InvFull`. -/
 structure Inv (c : Ctx) (s : Store) (chain : List Block) : Prop where
-  agree : Agree s (bookOf c.p c.own chain)
+  agree : AgreeM s (bookOf c.p c.own chain)
   bal : ∀ w, (readyWallets s c.wallets).contains w = true →
     AMap.get s.balance w = some (totalU (bookOf c.p c.own chain).L w)
   sync : ∀ h, AMap.get s.sync h = syncOf chain h
   syncedTo : s.syncedTo + 1 = chain.length
+
+/-- `Inv` plus the address records (first-use heights): preserved by connecting blocks -/
+structure InvFull (c : Ctx) (s : Store) (chain : List Block) : Prop extends Inv c s chain where
+  addrs : ∀ k, AMap.get s.addrs k = (bookOf c.p c.own chain).addrs k
 
 theorem syncOf_snoc (chain : List Block) (b : Block) (k : Nat) :
     syncOf (chain ++ [b]) k = if chain.length = k then some b.id else syncOf chain k := by
